@@ -122,9 +122,17 @@ def move_coq(m):
     raise ValueError(k)
 
 
+CAP_CLAMP = 4096   # capacities are unary numbers in the model; no recorded trace has that many sends, so a capacity beyond it is
+                   # rendered as this one (the trace cannot tell them apart); describe() shows the observed value
+
+
+def capslist(l):
+    return natlist([min(int(x), CAP_CLAMP) for x in l])
+
+
 def to_coq(c):
     return "mkC (mkP %s %s %s [%s]) %s %s %s [%s]" % (
-        stage_coq(c["stage"]), natlist(c.get("icaps") or []), natlist(c.get("ocaps") or []),
+        stage_coq(c["stage"]), capslist(c.get("icaps") or []), capslist(c.get("ocaps") or []),
         "; ".join(move_coq(m) for m in c["moves"]),
         vlib.zlist(c.get("calls") or []), b(c.get("crash")), "%d%%N" % gen_code(c.get("gen", "")),
         "; ".join("%d%%N" % t for t in (c.get("call_at") or [])))
